@@ -21,9 +21,25 @@
 use super::*;
 
 fn fifo(len: usize, bytes: &[u8; 8], readers: usize, writers: usize) -> FileBody {
+    fifo_rot(len, bytes, readers, writers, 0)
+}
+
+/// `rot`: the ring buffer's head is advanced by `rot` positions first (bytes pushed and popped), so that
+/// with rot + len > PIPE_SIZE the content WRAPS around the end of the allocation - the state a pipe is in
+/// after more than one capacity has passed through it.
+fn fifo_rot(len: usize, bytes: &[u8; 8], readers: usize, writers: usize, rot: usize) -> FileBody {
     // pre-allocated at the pipe capacity: with a growing buffer every step starts with std's realloc
     // (array copy of symbolic bytes), after which CBMC's array post-processing did not finish in 17 min
     let mut content = VecDeque::with_capacity(PIPE_SIZE);
+    let mut k = 0;
+    while k < rot {
+        content.push_back(0u8);
+        k += 1;
+    }
+    while k > 0 {
+        content.pop_front();
+        k -= 1;
+    }
     let mut i = 0;
     while i < len {
         content.push_back(bytes[i]);
@@ -112,12 +128,21 @@ fn step_write(len: usize, n: usize) {
 }
 
 fn step_read(len: usize, n: usize) {
+    step_read_rot(len, n, 0);
+}
+
+/// The same read step from a pipe whose content wraps around the end of the ring buffer.
+fn step_readw(len: usize, n: usize) {
+    step_read_rot(len, n, 5);
+}
+
+fn step_read_rot(len: usize, n: usize, rot: usize) {
     let old: [u8; 8] = kani::any();
     let none = [0u8; 12];
     let readers: usize = kani::any();
     let writers: usize = kani::any();
     kani::assume(readers <= 2 && writers <= 2);
-    let mut body = fifo(len, &old, readers, writers);
+    let mut body = fifo_rot(len, &old, readers, writers, rot);
     let mut buf = [0u8; 12];
     let r = body.poll_read(&mut buf[..n], 0, Weak::new);
     let (_rw, ww, ri, _wi) = woken(&body);
